@@ -86,8 +86,10 @@ fn rel<D: P>(h: &D, d: &D) -> Vec<V> {
 pub fn tour_arcs(n: usize, missing: Option<(usize, usize)>) -> Vec<(usize, usize)> {
     let mut arcs = Vec::with_capacity(n * n / 2 + 1);
     let dbl = missing.map(|(a, b)| if a.min(b) >= 2 { (0, 1) } else { (n - 2, n - 1) });
-    for u in 0..n {
-        for v in (u + 1)..n {
+    // pairs in descending order (v = n-1..1, u = v-1..0): every row receives its heads in decreasing
+    // order, so both the real `BTreeSet` inserts and the model's `sinsert` are cheap
+    for v in (1..n).rev() {
+        for u in (0..v).rev() {
             if missing == Some((u, v)) {
                 continue;
             }
@@ -539,7 +541,7 @@ fn gen_stress(rng: &mut Rng, emit: &mut dyn FnMut(String)) {
     extreme_id_maps(rng, 6, emit);
     // orders 192..: `order mod t` takes many values for t = min(cores, order / 64), order / t, ceil(order / t)
     large_al_lines(rng, &[200, 193, 257, 263], true, emit);
-    large_al_lines(rng, &[300, 339, 518], false, emit);
+    large_al_lines(rng, &[300, 339, 513, 518], false, emit);
     // positive cases of the same size (a true answer must stay true), other representations
     for &n in &[200usize, 263] {
         emit(format!("pred_tour al {n} []"));
@@ -550,7 +552,7 @@ fn gen_stress(rng: &mut Rng, emit: &mut dyn FnMut(String)) {
     // one explicit random dense case (not rule-generated)
     let arcs = tournament_minus_pair(rng, 200, 198, 199);
     emit(format!("pred_unary {}", mk("al", (0..200).collect(), arcs, rng).to_v()));
-    large_al_lines(rng, &[770], false, emit);
+    large_al_lines(rng, &[770, 1030, 1100], false, emit);
 }
 
 /// Cheap out-of-distribution cases that run in EVERY tier (after the regular stream).
